@@ -119,6 +119,7 @@ func (l c05Lister) Get(name string) (*schedulingv1alpha1.Reservation, error) {
 const (
 	c05OwnerLabel = "verif/owner"
 	c05RsvLabel   = "verif/rsv"
+	c05TierLabel  = "tier.verif/class" // second label of every reservation: tracked by the index's PREFIX white-list, c05RsvLabel by its exact-key white-list
 )
 
 type c05RsvDef struct {
@@ -279,7 +280,8 @@ func c05NewSys(res *mc.Result, ops []c05Op, evalAll bool) *c05Sys {
 	lister := c05Lister{s}
 	s.cache = newReservationCache(lister)
 	// the reservationSelector white-list index (node level) is switched on for the label key the reservations carry
-	s.cache.setReservationSelectorIndexConfig(&config.ReservationSelectorIndexArgs{Enabled: true, KeyPrefixes: []string{"verif/"}})
+	// (both white-list forms: the exact key verif/rsv lands in nodesByExactKV, the prefix tier.verif/ in nodesByPrefix)
+	s.cache.setReservationSelectorIndexConfig(&config.ReservationSelectorIndexArgs{Enabled: true, KeyPrefixes: []string{"tier.verif/"}, Keys: []string{c05RsvLabel}})
 	s.nm = newNominator(nil, lister)
 	s.h1 = &reservationEventHandler{cache: s.cache, rrNominator: s.nm}
 	s.ph = &podEventHandler{cache: s.cache, nominator: s.nm}
@@ -312,7 +314,7 @@ func (s *c05Sys) rsv(name string) *c05Rsv {
 func (s *c05Sys) rsvObj(r *c05Rsv) *schedulingv1alpha1.Reservation {
 	d := r.def
 	o := &schedulingv1alpha1.Reservation{
-		ObjectMeta: metav1.ObjectMeta{Name: d.name, UID: d.uid, Labels: map[string]string{c05RsvLabel: "yes"},
+		ObjectMeta: metav1.ObjectMeta{Name: d.name, UID: d.uid, Labels: map[string]string{c05RsvLabel: "yes", c05TierLabel: "x"},
 			CreationTimestamp: metav1.NewTime(time.Unix(1700000000, 0))},
 		Spec: schedulingv1alpha1.ReservationSpec{
 			Template: &corev1.PodTemplateSpec{
@@ -774,7 +776,7 @@ var c05CounterNames = []string{
 	"diag_assigned_set_size_differs", "index_entries_checked", "listing_results_checked", "get_by_pod_hits",
 	"live_reservations_checked", "matchable_reservations_checked", "diag_matchable_index_lists_unmatchable",
 	"allocate_once_nominate_filter_asked", "allocate_once_nominate_filter_skipped_no_cycle_state", "diag_before_prefilter_failed",
-	"scheduling_cycles_run", "scheduling_cycles_run_for_a_non_owner_pod", "restore_path_matched", "cycle_nothing_nominated", "cycle_nominated", "states_with_exhausted_allocate_once", "selector_index_entries_checked", "selector_index_live_matchable_checked",
+	"scheduling_cycles_run", "scheduling_cycles_run_for_a_non_owner_pod", "restore_path_matched", "cycle_nothing_nominated", "cycle_nominated", "states_with_exhausted_allocate_once", "selector_index_entries_checked", "selector_index_exact_key_entries_checked", "selector_index_live_matchable_checked",
 	"diag_reserve_did_not_assume",
 }
 var c05CounterIdx = func() map[string]int {
@@ -1017,27 +1019,52 @@ func (s *c05Sys) judge() []mc.Violation {
 			}
 		}
 	}
-	var selNodes []string
-	selHit := false
-	guard("FilterByReservationSelector", func() { selNodes, selHit = c.FilterByReservationSelector(map[string]string{c05RsvLabel: "yes"}) })
-	for _, n := range selNodes {
-		if n != "n1" && n != "n2" {
-			viol = append(viol, s.v("listing-yields-unknown-node|FilterByReservationSelector"+after, n, "FilterByReservationSelector yields "+n))
-		}
-	}
-	for _, r := range s.rsvs {
-		if !r.live() || !s.refMatchable(r) {
-			continue
-		}
-		s.count("selector_index_live_matchable_checked", 1)
-		found := false
-		for _, n := range selNodes {
-			if n == r.placed {
-				found = true
+	for key, byValue := range c.nodesByExactKV {
+		for val, byNode := range byValue {
+			for node, uids := range byNode {
+				for uid := range uids {
+					s.count("selector_index_entries_checked", 1)
+					s.count("selector_index_exact_key_entries_checked", 1)
+					r := s.byUID[uid]
+					if ri, ok := c.reservationInfos[uid]; !ok || ri == nil {
+						viol = append(viol, s.v("index-references-missing-reservation|nodesByExactKV"+after, node+string(uid), fmt.Sprintf("nodesByExactKV[%s][%s][%s] lists %s which is not in the primary map", key, val, node, uid)))
+					} else if r == nil || r.placed != node {
+						viol = append(viol, s.v("index-lists-under-wrong-node|nodesByExactKV"+after, node+string(uid), fmt.Sprintf("nodesByExactKV[%s][%s][%s] lists %s which the events placed elsewhere", key, val, node, uid)))
+					}
+				}
 			}
 		}
-		if !selHit || !found {
-			viol = append(viol, s.v("matchable-reservation-unreachable|FilterByReservationSelector"+after, r.def.name, fmt.Sprintf("reservation %s is live and matchable on %s and carries the indexed label, but FilterByReservationSelector yields %v (index hit %v)", r.def.name, r.placed, selNodes, selHit)))
+	}
+	for _, sel := range []map[string]string{{c05RsvLabel: "yes"}, {c05TierLabel: "x"}, {c05RsvLabel: "yes", c05TierLabel: "x"}} {
+		var selNodes []string
+		selHit := false
+		form := "exact-key"
+		if _, ok := sel[c05TierLabel]; ok {
+			form = "prefix"
+			if len(sel) == 2 {
+				form = "both"
+			}
+		}
+		guard("FilterByReservationSelector", func() { selNodes, selHit = c.FilterByReservationSelector(sel) })
+		for _, n := range selNodes {
+			if n != "n1" && n != "n2" {
+				viol = append(viol, s.v("listing-yields-unknown-node|FilterByReservationSelector|"+form+after, n, "FilterByReservationSelector yields "+n))
+			}
+		}
+		for _, r := range s.rsvs {
+			if !r.live() || !s.refMatchable(r) {
+				continue
+			}
+			s.count("selector_index_live_matchable_checked", 1)
+			found := false
+			for _, n := range selNodes {
+				if n == r.placed {
+					found = true
+				}
+			}
+			if !selHit || !found {
+				viol = append(viol, s.v("matchable-reservation-unreachable|FilterByReservationSelector|"+form+after, r.def.name, fmt.Sprintf("reservation %s is live and matchable on %s and carries the indexed labels, but FilterByReservationSelector(%v) yields %v (index hit %v)", r.def.name, r.placed, sel, selNodes, selHit)))
+			}
 		}
 	}
 
@@ -1329,6 +1356,15 @@ func (s *c05Sys) cacheString() string {
 		for node, uids := range byNode {
 			for uid := range uids {
 				sel = append(sel, prefix+"@"+node+"="+string(uid))
+			}
+		}
+	}
+	for key, byValue := range c.nodesByExactKV {
+		for val, byNode := range byValue {
+			for node, uids := range byNode {
+				for uid := range uids {
+					sel = append(sel, key+"="+val+"@"+node+"="+string(uid))
+				}
 			}
 		}
 	}
